@@ -15,7 +15,9 @@ EXPLANATION = ('Decided from MIR: (R20.1) panic-site census from urdf::from_urdf
                'joints (nesting, order and identical copies do not matter); (R20.6) the xacro angle pattern: the capture group handed to the '
                'float parser spans the whole decimal number (regex constant evaluated against a specification table of tokens); (R20.9) component '
                'table: on joint 3 c2 is read from the x/z components of the origin and b from y, on joint 4 a2 from z and c3 from x/y, the other '
-               'lengths from the single non-zero component, and the two-component choice helper is interpreted on point values.  That the '
+               'lengths from the single non-zero component, and the two-component choice helper is interpreted on point values; (R20.10) every '
+               'Parameters value built from a URDFParameters (to_robot, parameters) takes each field from the field of the same name and the '
+               'offsets from the caller.  That the '
                'origin-to-parameter heuristics recover every OPW-layout robot is a behavioural claim over generated documents and not decided.')
 NOT_DECIDED = 'that the heuristics recover the parameters of every OPW-layout robot; name-decoration handling; xacro syntax coverage'
 ASSUMPTIONS = ['sxd_document parses or rejects arbitrary input without panicking', 'Rust regex and Python re agree on the syntax subset used by the angle pattern']
